@@ -24,8 +24,15 @@ cov_from_measurements and cov_from_unbalanced (+ the two prec_from_*) on the sam
 'session' cases (round 4, engines/C14_session.py): ONE Dataset object, a list of steps -- estimator
 calls interleaved with in-place changes (sort_by, stores into obs_descriptors / measurements);
 every estimate is judged against the content the object has at that moment.
+Round 5: 'extreme channel scale' inputs -- the same kinds of case, the values of channel j multiplied by
+an exact power of two 2^e_j, e_j in -50..+10 within one input (covariance entries spanning > 1e15, up to
+~1e36); the numbers stay exact dyadic rationals ("p/q").  Everything about covariances / precisions is
+compared and judged in the *equilibrated* metric: C -> D^-1 C D^-1, P -> D P D with D = diag(2^e_j),
+4^e_j ~ C_jj (exact operations), so that "P C = I" and "entry-wise relative" are demanded of every channel
+and not only of the channels that dominate the norm.
 """
 import copy
+import math
 from fractions import Fraction as F
 
 import numpy as np
@@ -52,7 +59,9 @@ THEOREMS = [P + n for n in (
     # round 4: sessions on one dataset object
     'session_estimate_of_current_content', 'session_estimates_leave_content', 'session_repeat_identical',
     'view_sortBy_perm', 'sortBy_sorted', 'session_sort_keeps_estimates', 'session_sorts_only',
-    'session_full_is_pooled_cov_of_current')]
+    'session_full_is_pooled_cov_of_current',
+    # round 5: channel scales
+    'prec_equilibrated', 'diagonal_precision_entrywise', 'diag_precision_is_reciprocal_variance')]
 RULE = ('one PRNG; residual matrices n=2..12 x p=1..6 (incl. p > n), datasets with 1..5 conditions '
         'x 1..5 repetitions in shuffled row order with arbitrary integer or string labels, balanced '
         'and unbalanced; values are small integers / halves (exact in binary) stored as float64, '
@@ -65,7 +74,10 @@ RULE = ('one PRNG; residual matrices n=2..12 x p=1..6 (incl. p > n), datasets wi
         'estimators, cov / prec, all methods, any descriptor, dof None / passed, repeated, either order) '
         'interleaved with sort_by on several keys, stores into obs_descriptors[...] / measurements, '
         'replaced descriptor lists / arrays, get_measurements_tensor calls -- every estimate judged '
-        'against the content of that moment.  A case is non-trivial '
+        'against the content of that moment; extreme channel scales: channel j multiplied by 2^e_j, '
+        'e_j in -50..+10 within one input (variances spanning > 1e15), uniformly tiny inputs (2^-50..2^-40), '
+        'moderate spans, list / tuple / 3-D inputs whose elements have different scales, datasets, all four '
+        'methods, dof None / passed -- compared and judged in the equilibrated metric.  A case is non-trivial '
         'when at least one covariance was returned; distinct = distinct (kind, method, form, dof, '
         'inputs, representation keys)')
 BRANCHES = ['res:single', 'res:list', 'res:array3', 'ds:single:balanced', 'ds:single:unbalanced',
@@ -77,15 +89,23 @@ BRANCHES = ['res:single', 'res:list', 'res:array3', 'ds:single:balanced', 'ds:si
             'dof:npint', 'ds:one-condition',
             # round 3
             'sdiag:const', 'const-channel:full', 'const-channel:diag', 'const-channel:shrinkage_eye',
-            'eye:deg:dof-passed', 'prec:singular:LinAlgError', 'prec:singular:returned',
+            'eye:deg:dof-passed',
+            # ('prec:singular:LinAlgError' / ':returned' / ':nonfinite' are still counted but no longer
+            #  required: whether they are reached depends on the library's behaviour, and the outcome on an
+            #  exactly singular covariance is now a *comparison*, see `_singular_outcome`)
             'list:mixed-p', 'dof:list:short', 'dof:list:long', 'call:pos', 'call:default',
             'desc:renamed', 'desc:decoy', 'container:tuple', 'layout:F', 'layout:strided',
-            'layout:readonly', 'ds:labels-unsorted', 'malformed:0d', 'malformed:1d'] + SES.BRANCHES
+            'layout:readonly', 'ds:labels-unsorted', 'malformed:0d', 'malformed:1d',
+            # round 5: extreme channel scales (all determined by generator + exact model, never by the library)
+            'scale:channels-1e15', 'scale:tiny', 'scale:uniform-tiny', 'scale:moderate', 'scale:prec-judged',
+            'scale:prec-judged:full', 'scale:prec-judged:diag', 'scale:prec-judged:shrinkage_eye',
+            'scale:prec-judged:shrinkage_diag', 'scale:list', 'scale:dataset', 'scale:dof-passed'] + SES.BRANCHES
 ASSUMPTIONS = [
     'numpy float64 evaluation of the closed-form estimators is within 1e-9 relative of the exact '
     'value on the generated (small, dyadic) inputs',
-    'precisions are compared / required only where the covariance is invertible with condition '
-    'number <= 1e7',
+    'precisions are compared / required only where the *equilibrated* covariance D^-1 C D^-1 '
+    '(D = powers of two, D_jj^2 ~ C_jj) is invertible with condition number <= 1e7; a returned finite '
+    'matrix P with p^2 max|C\'| max|P\'| <= 1e7 is always required to satisfy C P = I',
 ]
 TRUSTED_EXTRA = [
     'np.linalg.inv: treated as an external routine; its contract (A @ inv(A) = I) is checked on '
@@ -343,6 +363,8 @@ def model_result(case, answers):
             precs.append(_mat(case, it['prec'], exact=True))
             info.append({'est': name, 'clip': it['clip'], 'lam': _num(case, it['lam']),
                          'singular': it['cov'] is not None and it['prec'] is None,
+                         'raises': it['cov'] is None,
+                         'econd': _econd(covs[-1], precs[-1]) if precs[-1] is not None else None,
                          'index': len(covs) - 1})
         res['calls'][name + ':cov'] = covs
         res['calls'][name + ':prec'] = precs
@@ -367,6 +389,92 @@ def _mat_diff(a, b, rtol, atol, what):
 def _cond(cov, prec):
     p = len(cov)
     return p * _maxabs(cov) * p * _maxabs(prec)
+
+
+# ---- round 5: equilibration.  C is a covariance: with D = diag(2^e_j), 4^e_j ~ C_jj, the matrix
+# C' = D^-1 C D^-1 has a diagonal in [1/2, 2]; P is the inverse of C iff P' = D P D is the inverse of C'
+# (theorem `prec_equilibrated`).  Multiplying by powers of two is exact, so nothing is lost; what is gained
+# is that tolerances apply per channel: an entry P_jk is judged relative to 1 / sqrt(C_jj C_kk), not
+# relative to the largest entry of the matrix.
+
+GRADED = 10          # a matrix is 'graded' when its scale exponents span more than this (2^10 in std)
+
+
+def _pow2_exps(diag):
+    """e_j with 4^e_j ~ diag_j (0 for a zero / non-finite entry)"""
+    out = []
+    for v in diag:
+        try:
+            v = float(v)
+        except (OverflowError, ValueError):
+            v = 0.0
+        out.append(int(round(math.log2(v) / 2)) if v > 0 and math.isfinite(v) else 0)
+    return out
+
+
+def _equil(m, e, sign):
+    """sign = -1: covariance (entry j,k times 2^-(e_j+e_k)); +1: precision"""
+    return [[math.ldexp(v, sign * (e[j] + e[k])) if math.isfinite(v) else v for k, v in enumerate(r)]
+            for j, r in enumerate(m)]
+
+
+def _econd(cov, prec):
+    """p^2 max|C'| max|P'| of the equilibrated pair (an upper bound of the 2-norm condition number)"""
+    e = _pow2_exps(_diag(cov))
+    return _cond(_equil(cov, e, -1), _equil(prec, e, +1))
+
+
+def _unit(e):
+    """text for a message: the exponents, when the rescaling is more than cosmetic"""
+    if e and (max(e) - min(e) > 3 or max(abs(x) for x in e) > 8):
+        return f' (equilibrated: entries rescaled by the channel exponents {e})'
+    return ''
+
+
+def _diag(m):
+    return [m[j][j] for j in range(len(m))]
+
+
+def _is_diagonal(m):
+    return all(m[j][k] == 0 for j in range(len(m)) for k in range(len(m)) if j != k)
+
+
+def _prec_abs(e):
+    """absolute part of the precision tolerance in the equilibrated metric.  np.linalg.inv is an LU
+    with partial (row) pivoting: on a graded matrix the pivot order follows the channel scales, not the
+    sizes of the equilibrated entries, and the error in the equilibrated metric is a few 1e-11 instead of
+    1e-16 (40 000 sampled inputs: max 3.1e-11) -- still nine orders below a dropped channel (error 1)"""
+    return 1e-6 if e and max(e) - min(e) > GRADED else _T['prec_a']
+
+
+def _lu_allow(e, j, k):
+    """what np.linalg.inv (LU with partial pivoting, normwise backward stable) cannot be asked for: on a
+    graded matrix the entry (j, k), j != k, of the computed inverse carries a cancellation error of
+    unit round-off x the *largest* entry, which in the equilibrated metric is u * 2^|e_j - e_k| (found on
+    the unchanged tree: channels 2^-46 and 2^+10 with exactly zero covariance, P'_01 = 1.4 instead of 0,
+    corpus/C14/graded-inverse-offdiagonal.json).  Diagonal entries get no allowance: (C P)_jj, (P C)_jj
+    and P'_jj are invariant under the rescaling and are demanded of every channel."""
+    return 0.0 if j == k else 1e-14 * 2.0 ** abs(e[j] - e[k])
+
+
+def _prec_diff(ie, me, e, tol, what):
+    """entry-wise comparison of two equilibrated precisions"""
+    big = _maxabs(me)
+    for j, (ra, rb) in enumerate(zip(ie, me)):
+        for k, (x, y) in enumerate(zip(ra, rb)):
+            if not (np.isfinite(x) and np.isfinite(y)) or abs(x - y) > tol + _lu_allow(e, j, k) * big:
+                return f'{what}[{j}][{k}]: impl {x!r} != model {y!r}'
+    return None
+
+
+def _singular_outcome(cov_e, prec_e):
+    """what a *returned* matrix for an exactly singular covariance is (both equilibrated):
+    'nonfinite' (inf / nan: explicitly no inverse), 'garbage' (rounding hid the zero pivot: entries of
+    size >= 1 / (unit round-off), the matrix itself says 'condition number beyond every claim') or
+    'finite' (a moderate-sized matrix passed off as the precision: to be judged)"""
+    if not all(math.isfinite(v) for r in prec_e for v in r):
+        return 'nonfinite'
+    return 'garbage' if _cond(cov_e, prec_e) > _T['cond_max'] else 'finite'
 
 
 def _short_dof(case):
@@ -404,7 +512,7 @@ def compare(case, impl, model):
             # covariance is singular / ill-conditioned (LinAlgError)
             if any(raises) and ires['exc'] == rejects_with:
                 continue
-            sing = [pm is None or _cond(cm, pm) > _T['cond_max']
+            sing = [pm is None or _econd(cm, pm) > _T['cond_max']
                     for cm, pm in zip(mcov, model['calls'][est + ':prec']) if cm is not None]
             if ires['exc'] == 'LinAlgError' and any(sing):
                 continue
@@ -419,18 +527,38 @@ def compare(case, impl, model):
         for i, (im, mm) in enumerate(zip(ires['items'], mres)):
             if isinstance(im, dict):
                 return f"{call}[{i}]: {im['bad']}"
+            # everything below in the equilibrated metric of the model's covariance (exact rescaling)
+            e = _pow2_exps(_diag(mcov[i]))
+            cm = _equil(mcov[i], e, -1)
+            unit = _unit(e)
             if which == 'cov':
-                d = _mat_diff(im, mm, _T['rtol'], _T['atol'] + _T['rel_scale'] * _maxabs(mm), f'{call}[{i}]')
+                d = _mat_diff(_equil(im, e, -1), cm, _T['rtol'], _T['atol'] + _T['rel_scale'] * _maxabs(cm),
+                              f'{call}[{i}]')
                 if d:
-                    return d
+                    return d + unit
             else:
-                cm = mcov[i]
-                if mm is None or _cond(cm, mm) > _T['cond_max']:
-                    continue           # singular / ill-conditioned: the property is silent
-                tol = _T['prec_c'] * _cond(cm, mm) * _maxabs(mm) + _T['prec_a'] * _maxabs(mm)
-                d = _mat_diff(im, mm, 0.0, tol, f'{call}[{i}]')
+                ie = _equil(im, e, +1)
+                if mm is None:
+                    # exactly singular covariance: LinAlgError (handled above), an explicitly non-finite
+                    # matrix or the huge entries of a zero pivot hidden by rounding are acceptable; a finite
+                    # moderate-sized 'precision' is a disagreement (the oracle judges it)
+                    if _singular_outcome(cm, ie) == 'finite':
+                        return (f'{call}[{i}]: a finite matrix (claimed condition number {_cond(cm, ie):.3g}) '
+                                f'was returned as the precision of an exactly singular covariance' + unit)
+                    continue
+                me = _equil(mm, e, +1)
+                if _cond(cm, me) > _T['cond_max']:
+                    continue           # ill-conditioned also per channel: the property is silent
+                tol = _T['prec_c'] * _cond(cm, me) * _maxabs(me) + _prec_abs(e) * _maxabs(me)
+                d = _prec_diff(ie, me, e, tol, f'{call}[{i}]')
                 if d:
-                    return d
+                    return d + unit
+                if _is_diagonal(mcov[i]):
+                    # a diagonal covariance: P_jj * C_jj = 1 for every channel, whatever its scale
+                    for j in range(len(im)):
+                        if not abs(im[j][j] * mcov[i][j][j] - 1.0) <= max(1e-9, _T['prec_a']):
+                            return (f'{call}[{i}]: P[{j}][{j}] * C[{j}][{j}] = {im[j][j] * mcov[i][j][j]!r} '
+                                    f'!= 1 (diagonal covariance, channel variance {mcov[i][j][j]!r})')
     if impl['unchanged'] != model['unchanged']:
         return 'input was modified by the call'
     return None
@@ -490,10 +618,6 @@ def _check_estimate(method, cov, S, tag):
             and (method != 'shrinkage_eye' or len({Sf[j][j] for j in range(p)}) == 1))
         return _fail(f'{tag}: estimate is not finite', cov, Sf, defect='nonfinite',
                      target_equals_cov=bool(degenerate))
-    for j in range(p):
-        for k in range(p):
-            if not _close(cov[j][k], cov[k][j], scale):
-                return _fail(f'{tag}: estimate is not symmetric', cov, Sf, defect='asymmetric')
     if method == 'full':
         T, lam_free = Sf, False
     elif method == 'diag':
@@ -503,6 +627,16 @@ def _check_estimate(method, cov, S, tag):
         T, lam_free = [[tr if j == k else 0.0 for k in range(p)] for j in range(p)], True
     else:
         T, lam_free = [[Sf[j][k] if j == k else 0.0 for k in range(p)] for j in range(p)], True
+    # scale-aware: all three matrices in the equilibrated metric of max(S_jj, T_jj) (exact rescaling; the
+    # convex-combination identity is entry-wise, definiteness is invariant under the congruence)
+    ex = _pow2_exps([max(Sf[j][j], T[j][j]) for j in range(p)])
+    cov, Sf, T = _equil(cov, ex, -1), _equil(Sf, ex, -1), _equil(T, ex, -1)
+    scale = max(_maxabs(Sf), 1e-300)
+    tag = tag + _unit(ex)
+    for j in range(p):
+        for k in range(p):
+            if not _close(cov[j][k], cov[k][j], scale):
+                return _fail(f'{tag}: estimate is not symmetric', cov, Sf, defect='asymmetric')
     if not lam_free:
         want = Sf if method == 'full' else T
         for j in range(p):
@@ -571,23 +705,72 @@ def _cond_of(cov):
     return cond if np.isfinite(cond) else np.inf
 
 
+def _ecov(cov):
+    """the equilibrated covariance and its exponents"""
+    e = _pow2_exps(_diag(cov))
+    return _equil(cov, e, -1), e
+
+
 def _invertible(cov):
-    return not isinstance(cov, dict) and _cond_of(cov) <= _T['cond_max']
+    return not isinstance(cov, dict) and _cond_of(_ecov(cov)[0]) <= _T['cond_max']
 
 
 def _check_prec(cov, prec, tag):
-    c = np.array(cov)
-    cond = _cond_of(cov)
-    if cond > _T['cond_max']:
-        return None
+    """`prec` must be the matrix inverse of `cov` -- judged in the equilibrated metric (C' = D^-1 C D^-1,
+    P' = D P D; P C = I iff P' C' = I), so that every channel counts whatever its scale.  Silent only when
+    C' is ill-conditioned / singular AND the returned matrix does not claim otherwise (its entries are of
+    the size an inverse of such a matrix must have, or not finite, or the call raised)."""
+    ce, e = _ecov(cov)
+    c = np.array(ce)
+    cond = _cond_of(ce)
+    unit = _unit(e)
     if isinstance(prec, dict):
-        return _fail(f'{tag}: precision call failed although the covariance is invertible',
+        if cond > _T['cond_max']:
+            return None
+        return _fail(f'{tag}: precision call failed although the covariance is invertible{unit}',
                      prec, 'inverse', defect='prec')
-    pr = np.array(prec)
-    err = np.abs(c @ pr - np.eye(len(cov))).max()
-    if not np.isfinite(err) or err > _T['prec_co'] * cond + _T['prec_a']:
-        return _fail(f'{tag}: precision is not the inverse of the covariance (max |C P - I|)',
-                     float(err), 0.0, defect='prec')
+    pe = _equil(prec, e, +1)
+    finite = all(math.isfinite(v) for r in pe for v in r)
+    claimed = _cond(ce, pe) if finite else math.inf
+    if cond > _T['cond_max'] and claimed > _T['cond_max']:
+        return None
+    pr = np.array(pe)
+    n_ch = len(cov)
+    with np.errstate(all='ignore'):
+        right = np.abs(c @ pr - np.eye(n_ch))          # C' P' - I
+        left = np.abs(pr @ c - np.eye(n_ch))           # P' C' - I
+    k_ = min(cond, claimed)
+    base = _T['prec_co'] * k_ + _prec_abs(e)
+    # every channel: (C P)_jj = (P C)_jj = 1 (invariant under the rescaling); off the diagonal the
+    # allowance of an LU inverse on a graded matrix (`_lu_allow`) is added
+    err = 0.0
+    for j in range(n_ch):
+        for l in range(n_ch):
+            for v in (right[j][l], left[j][l]):
+                if not np.isfinite(v):
+                    err = float('inf')
+                elif v > base + _lu_allow(e, j, l) * max(1.0, k_):
+                    err = max(err, float(v))
+    if err > 0:
+        bad = [j for j in range(len(cov)) if not abs(sum(ce[j][l] * pe[l][j] for l in range(len(cov))) - 1) <= 1e-6]
+        if cond <= _T['cond_max']:
+            what = f'{tag}: precision is not the inverse of the covariance (invertible, condition ' \
+                   f'{cond:.3g} per channel scale; max |C P - I|, channels not inverted: {bad}){unit}'
+        else:
+            what = f'{tag}: a finite matrix ' + ('' if _maxabs(ce) else '(for an all-zero covariance) ') + \
+                   f'of moderate size (claimed condition {claimed:.3g}) was returned as ' \
+                   f'the precision of a singular / ill-conditioned covariance (condition {cond:.3g}) and is ' \
+                   f'not its inverse (max |C P - I|){unit}'
+        return _fail(what, float(err), 0.0, defect='prec', channels_not_inverted=bad,
+                     singular=bool(cond > _T['cond_max']),
+                     diag_PC=[float(sum(ce[j][l] * pe[l][j] for l in range(len(cov)))) for j in range(len(cov))])
+    if _is_diagonal(cov) and cond <= _T['cond_max']:
+        # diagonal covariance ('diag', or a shrinkage estimate that reached its target):
+        # P_jj * C_jj = 1 for every channel
+        for j in range(len(cov)):
+            if not abs(prec[j][j] * cov[j][j] - 1.0) <= max(1e-9, _T['prec_a']):
+                return _fail(f'{tag}: P[{j}][{j}] * C[{j}][{j}] != 1 on a diagonal covariance',
+                             float(prec[j][j] * cov[j][j]), 1.0, defect='prec', channels_not_inverted=[j])
     return None
 
 
@@ -654,6 +837,8 @@ def oracle(case):
         got[est] = cov['items']
     if 'measurements' in got and 'unbalanced' in got:
         for i, (a, b) in enumerate(zip(got['measurements'], got['unbalanced'])):
+            eb = _pow2_exps(_diag(b))
+            a, b = _equil(a, eb, -1), _equil(b, eb, -1)
             d = _mat_diff(a, b, _T['rtol'], _T['atol'] + _T['rel_scale'] * _maxabs(b), f'[{i}]')
             if d:
                 o = _fail('measurement-based and unbalanced estimators differ on a balanced design', d,
@@ -668,6 +853,41 @@ def oracle(case):
 
 
 # ------------------------------------------------------------------ features
+
+def _scale_info(case):
+    """channel scales of a case, from the exact residual variances of every input:
+    'channels-1e15' = within one input the non-zero channel variances span a factor > 1e15,
+    'tiny' = some channel has a non-zero variance < 1e-24, 'uniform-tiny' = every channel of an input has,
+    'moderate' = span between 1e4 and 1e15"""
+    br, cls = set(), 'ordinary'
+    for inp in case['inputs']:
+        res, n, _, _ = _resid_spec(inp, case['kind'])
+        if not res:
+            continue
+        var = [sum(r[j] * r[j] for r in res) / n for j in range(len(res[0]))]
+        nz = [v for v in var if v != 0]
+        if not nz:
+            continue
+        span = max(nz) / min(nz)
+        if span > 10 ** 15:
+            br.add('scale:channels-1e15')
+        elif span > 10 ** 4:
+            br.add('scale:moderate')
+        if min(nz) < F(1, 10 ** 24):
+            br.add('scale:tiny')
+            if max(nz) < F(1, 10 ** 24):
+                br.add('scale:uniform-tiny')
+    extreme = bool(br - {'scale:moderate'})
+    if br:
+        cls = 'extreme' if extreme else 'moderate'
+        if case['form'] != 'single':
+            br.add('scale:list')
+        if case['kind'] == 'dataset':
+            br.add('scale:dataset')
+        if case['dof'] is not None:
+            br.add('scale:dof-passed')
+    return {'branches': sorted(br), 'class': cls, 'extreme': extreme}
+
 
 def features(case, impl):
     kind, form, method, p = case['kind'], case['form'], case['method'], case['p']
@@ -723,6 +943,8 @@ def features(case, impl):
     if const and method != 'shrinkage_diag':
         br.append('const-channel:' + method)
     info = _model_info.get(_key(case), [])
+    sc = _scale_info(case)
+    br += sc['branches']
     degenerate = False
     for it in info:
         if it['clip']:
@@ -738,23 +960,26 @@ def features(case, impl):
                 br.append(('eye:' if method == 'shrinkage_eye' else 'sdiag:') + it['clip'])
         if it['singular']:
             br.append('prec:singular')
+        if it.get('econd') is not None and it['econd'] <= (1e3 if case.get('dtype') == 'float32' else COND_MAX):
+            br.append('prec:compared')            # decided by the exact model, not by what the library did
+            if sc['extreme']:
+                br += ['scale:prec-judged', 'scale:prec-judged:' + method]
+        if it.get('raises') and it['est'] == 'measurements' and not _short_dof(case):
+            br.append('measurements:ValueError')  # the model's verdict; the library's is compared
     if impl is not None:
         for call, r in impl['calls'].items():
-            if call.endswith(':prec') and isinstance(r, dict) and 'items' in r \
-                    and not any(it['singular'] for it in info):
-                br.append('prec:compared')
             if call.endswith(':prec') and isinstance(r, dict) \
                     and 'items' in (impl['calls'].get(call.split(':')[0] + ':cov') or {}) \
                     and any(it['singular'] for it in info if it['est'] == call.split(':')[0]):
                 # the outcome of np.linalg.inv on an exactly singular covariance
+                # (informational tags, not required: they describe the library, not the input)
                 br.append('prec:singular:LinAlgError' if r.get('exc') == 'LinAlgError' else
                           'prec:singular:returned' if 'items' in r else 'prec:singular:other')
-            if call == 'measurements:cov' and isinstance(r, dict) and r.get('exc') == 'ValueError':
-                br.append('measurements:ValueError')
     return {'kind': kind, 'method': method, 'form': form, 'dofkind': _dof_kind(case), 'p': p,
             'dtype': case.get('dtype', 'float64'), 'const_channel': const,
             'layout': case.get('layout', 'C'), 'style': case.get('style', 'kw'),
             'n_inputs': len(case['inputs']), 'balanced': balanced, 'degenerate': degenerate,
+            'scale_class': sc['class'],
             'branches': sorted(set(br))}
 
 
@@ -1058,21 +1283,102 @@ def _structured(rng):
            'inputs': [{'rows': [[1, 2, 5], [3, 1, 1], [0, 3, 2]]}]}
 
 
+# ---- round 5: extreme channel scales
+
+def _scale_exps(rng, p, mode):
+    """exponents e_j (channel j is multiplied by 2^e_j)"""
+    if mode == 'span':                       # 2^-50 .. 2^+10 within one input: variances span >= 2^90
+        e = [rng.randint(-50, 10) for _ in range(p)]
+        if p > 1:
+            lo, hi = rng.sample(range(p), 2)
+            e[lo], e[hi] = rng.randint(-50, -45), rng.randint(0, 10)
+        else:
+            e[0] = rng.choice([-50, -44, 10])
+        return e
+    if mode == 'uniform-tiny':               # the whole input in tiny units (tesla)
+        return [rng.randint(-50, -42)] * p
+    if mode == 'two-groups':                 # the seeded scenario: unit-variance channels next to 1e-13 ones
+        t = rng.randint(-50, -40)
+        return [t if rng.random() < 0.5 else 0 for _ in range(p - 1)] + [t if p > 1 else 0]
+    return [rng.randint(-24, 0) for _ in range(p)]      # 'moderate': variance spans up to 2^48
+
+
+def _rescale(inp, e):
+    inp['rows'] = [[rat(_fr(x) * F(2) ** e[j]) for j, x in enumerate(r)] for r in inp['rows']]
+    return inp
+
+
+def _scale_case(rng, method=None, mode=None, kind=None, form=None, p=None, dof='random'):
+    """an ordinary case whose channels are multiplied by exact powers of two (the values stay exact
+    dyadic rationals, float64 represents them exactly; no under- / overflow: |e| <= 50)"""
+    method = method or rng.choice(METHODS)
+    mode = mode or rng.choice(['span', 'span', 'span', 'two-groups', 'uniform-tiny', 'moderate'])
+    kind = kind or rng.choice(['residuals', 'residuals', 'dataset'])
+    form = form or rng.choice(['single', 'single', 'list', 'array3'] if kind == 'residuals'
+                              else ['single', 'single', 'list'])
+    p = p or rng.choice([1, 2, 2, 3, 3, 4, 5, 6])
+    k = 1 if form == 'single' else rng.randint(2, 3)
+    roomy = rng.random() < 0.8               # enough rows for an invertible 'full' estimate
+    inputs = []
+    n3 = rng.randint(p + 3, p + 8) if roomy else rng.randint(2, 9)
+    for _ in range(k):
+        if kind == 'residuals':
+            n = n3 if form == 'array3' else (rng.randint(p + 3, p + 8) if roomy else rng.randint(2, 12))
+            inp = _residual_input(rng, n, p, method, const=(None if rng.random() < 0.3 else False))
+        else:
+            inp = _dataset_input(rng, p, method, rng.random() < 0.65,
+                                 n_cond=rng.choice([2, 3]) if roomy else None,
+                                 n_rep=rng.choice([p + 1, p + 2]) if roomy else None,
+                                 const=(None if rng.random() < 0.3 else False))
+        # list elements get their own scales (a common threshold across a list is then wrong)
+        inputs.append(_rescale(inp, _scale_exps(rng, p, mode if rng.random() < 0.8 else 'span')))
+    case = {'kind': kind, 'method': method, 'p': p, 'inputs': inputs, 'form': form,
+            'dof': _dof_for(rng, inputs, kind, form) if dof == 'random' else
+            [rng.randint(3, 9) for _ in inputs] if dof == 'list' else dof}
+    return _decorate(rng, case, dtype='float64')
+
+
+def _scale_structured(rng):
+    for method in METHODS:
+        for mode in ('span', 'two-groups', 'uniform-tiny', 'moderate'):
+            yield _scale_case(rng, method, mode, 'residuals', 'single', p=4 if mode != 'moderate' else 3,
+                              dof=None)
+        yield _scale_case(rng, method, 'span', 'dataset', 'single', p=3, dof=None)
+        yield _scale_case(rng, method, 'two-groups', 'residuals', 'list', p=3, dof='list')
+        yield _scale_case(rng, method, 'span', 'dataset', 'list', p=2, dof=None)
+        yield _scale_case(rng, method, 'uniform-tiny', 'residuals', 'array3', p=2, dof=6)
+    # the demo of seeded C14-9 in miniature: two z-scored channels next to two in tesla
+    rows = [[1, -1, 2, 1], [-2, 0, -1, 1], [0, 2, 1, -2], [1, 1, -2, 0], [-1, -2, 0, 1], [2, 0, 1, -1], [-1, 0, -1, 0]]
+    for method in METHODS:
+        yield {'kind': 'residuals', 'method': method, 'p': 4, 'form': 'single', 'dof': None,
+               'inputs': [_rescale({'rows': [list(r) for r in rows]}, [0, 0, -43, -43])]}
+
+
+def _scale_cases(rng, tier):
+    yield from _scale_structured(rng)
+    for _ in range(70 if tier == 'quick' else 1800):
+        yield _scale_case(rng)
+
+
 def generate(rng, tier):
     yield from _structured(rng)
     n = 280 if tier == 'quick' else 8000
     for _ in range(n):
         yield _random_case(rng)
     yield from SES.generate(rng, tier)        # round 4: sessions on one dataset object
+    yield from _scale_cases(rng, tier)        # round 5: extreme channel scales (after: earlier streams unchanged)
 
 
 def search(rng, tier):
     yield from _structured(rng)
     yield from SES.structured(rng)
+    yield from _scale_structured(rng)
     while True:
         yield _random_case(rng)
         if rng.random() < 0.3:
             yield SES.random_session(rng)
+        if rng.random() < 0.25:
+            yield _scale_case(rng)
 
 
 # ------------------------------------------------------------------ shrinking
@@ -1085,12 +1391,21 @@ def shrink(case, still_fails):
     if case['kind'] == 'malformed':
         return cur
 
+    def klass(c):
+        """the kind of failure (round 5): a smaller input must fail in the same way -- otherwise every
+        precision failure slips to the simplest one (a zero covariance) and the replay no longer shows the
+        class of input that was found (an invertible, badly scaled covariance)"""
+        o = oracle(c)
+        return (o['features'].get('defect'), o['features'].get('singular')) if o else None
+
+    k0 = klass(cur)
+
     def attempt(c):
         nonlocal cur
         try:
             if not _valid(c):
                 return False
-            if still_fails(c):
+            if still_fails(c) and (k0 is None or klass(c) == k0):
                 cur = c
                 return True
         except Exception:      # noqa: BLE001
